@@ -404,7 +404,10 @@ static void sdo_model_step(int srvno, const uint8_t *req, const WFrame *resp, in
     SModel *m = &SM[srvno];
     uint8_t cmd = req[0]; const uint8_t *r = nresp ? resp[0].d : 0;
     const char *sig = "sdo-bad-response"; char why[200];
-    int st0 = m->st;
+    int st0;
+    /* safety-only runs (C01) keep exploring behind a reference mismatch: never trust a half-updated model */
+    if (m->st != S_IDLE && m->st != S_UNSPEC && (m->obj < 0 || m->obj >= O_N || m->got > SDO_MAXDATA)) { m->st = S_UNSPEC; m->obj = -1; m->got = 0; }
+    st0 = m->st;
 
     if (cmd == 0x80) {                                            /* client abort: closes whatever is open */
         if (nresp > 1) SDO_FAIL("sdo-response-count", "more than one frame in answer to a client abort");
